@@ -139,7 +139,8 @@ def gen_cases(tier):
             yield {'m': base_msg([['int', 1]], True, q, c, t_us=t), 'd': d}
             yield {'m': base_msg([], False, q, c, t_us=t), 'd': d}
     for iface, name in (('a', 'b'), ('wl_display', 'delete_id'), ('zwp_linux_dmabuf_v1', 'create_params'),
-                        ('x1_y2', 'm_3'), ('A', 'B9')):
+                        ('x1_y2', 'm_3'), ('A', 'B9'), ('_private_iface', '_hidden'), ('Xwayland_shell_V1', 'Set_Serial'),
+                        ('i' * 60, 'm' * 60)):
         for (d, q, c) in COMBOS:
             yield {'m': base_msg([['int', 1]], True, q, c, iface=iface, name=name), 'd': d}
     # (v) negatives: non-message lines, and every proper prefix of one valid line
